@@ -28,6 +28,7 @@ RULE = ('Hypothesis generates C01 (distance-independent) and C02 (distance-depen
         'holds +inf / NaN anywhere in package order (enumerated up to length 5, sampled up to 60); non-trivial = a '
         'non-finite value before a finite one.')
 RULE += (' ' + 'Also varied: everything the C01 / C02 generators vary (mixed filter lists, stored units, long model names, cube validity flags).')
+RULE += (' ' + 'Cube packages fitted at wavelengths may tabulate their slices 1.5..3 per cent off the wavelengths asked for (nearest slice; the extinction coefficient belongs to the wavelength asked for).')
 ASSUMPTIONS = [
     'package order of the models = row order of the convolved-flux files / cube written by the independent writer',
     'predicted fluxes are compared at 1e-9 absolute (dex) + float32 slack when memory-mapped',
@@ -179,6 +180,7 @@ def _force_conf1(draw, case):
 @st.composite
 def cases_2d(draw):
     c = draw(gen.fit_case_2d(max_models=10, max_filters=6, max_sources=3))
+    gen.off_grid_requests(draw, c)
     n = len(c['grid']['names'])
     if n >= 3 and draw(st.booleans()):
         a, b = draw(st.integers(0, n - 1)), draw(st.integers(0, n - 1))
@@ -190,6 +192,7 @@ def cases_2d(draw):
 @st.composite
 def cases_3d(draw):
     c = draw(gen.fit_case_3d(max_models=8, max_filters=4, max_sources=3))
+    gen.off_grid_requests(draw, c)
     n = len(c['grid']['names'])
     if n >= 3 and draw(st.booleans()):
         a, b = draw(st.integers(0, n - 1)), draw(st.integers(0, n - 1))
